@@ -29,6 +29,10 @@ THEOREMS = [
     "cascade_exact_of_success",
     "cascade_exact_B",
     "delete_A_errors",
+    "protected_cascade_fails",
+    "cascade_marks_balanced",
+    "later_cascades_exact",
+    "context_reuse_exact",
     "delete_outcomes",
     "refusal_has_reason",
     "child_create_backrefs_exact",
@@ -52,7 +56,11 @@ RULE = ("scripted families (every id of the hostile pool — quotes, backslashes
         "drawn from the pool (in half of the histories one id names an entity in both stores; in three quarters the "
         "schema additionally draws which of the two child stores declares a mentor fk index / a guard fk constraint and "
         "their registration order; creates and updates go through either child store, also over an entity that already "
-        "holds data of the sibling); after every transaction "
+        "holds data of the sibling; in half of the histories the fk fields have a symbol name, a stored key and a "
+        "caller-side checker name that are not all the same, and patch updates list fields by any of the three; two in "
+        "five histories run on ONE MutateContext object reused for every Db.Update; deletes under an entity constraint "
+        "that protects a transitive referrer fail part-way and are followed by the delete of what the failed target "
+        "refers to); after every transaction "
         "the canonicalised boltz.Traverse dump, the surviving ids, the stored fk values, GetRelatedEntitiesIdList of "
         "every back-reference field (things, minions, mentees1, mentees2), each child store's view of every entity and "
         "the error enum are compared. "
@@ -82,8 +90,10 @@ def pretty_op(op):
         if f[0] == "ca":
             return {"createA": _unhex(f[1]), "owner": _fv(f[2]), "boss": _unhex(f[3]), "dep": _fv(f[4])}
         if f[0] == "ua":
-            m = int(f[2])
+            m = int(f[2].split("/")[0])
             flds = ["owner", "boss", "dep"] if m >= 8 else [n for b, n in ((1, "owner"), (2, "boss"), (4, "dep")) if m & b]
+            if "/" in f[2]:
+                flds = {"checker_lists_by_caller_name/stored_key/symbol_name (bit masks)": f[2]}
             return {"updateA": _unhex(f[1]), "fields": flds, "owner": _fv(f[3]), "boss": _unhex(f[4]), "dep": _fv(f[5])}
         if f[0] in ("cc", "c2"):
             d = {"createThroughChildStore" + ("C2" if f[0] == "c2" else "C"): _unhex(f[1]), "owner": _fv(f[2]),
@@ -92,9 +102,11 @@ def pretty_op(op):
                 d.update({"mentor": _fv(f[6]), "guard": _fv(f[7])})
             return d
         if f[0] in ("uc", "u2"):
-            m = int(f[2])
+            m = int(f[2].split("/")[0])
             names = ((1, "owner"), (2, "boss"), (4, "dep"), (16, "tag"), (32, "mentor"), (64, "guard"))
             flds = [n for _, n in names] if m & 8 else [n for b, n in names if m & b]
+            if "/" in f[2]:
+                flds = {"checker_lists_by_caller_name/stored_key/symbol_name (bit masks)": f[2]}
             d = {"updateThroughChildStore" + ("C2" if f[0] == "u2" else "C"): _unhex(f[1]), "fields": flds,
                  "owner": _fv(f[3]), "boss": _unhex(f[4]), "dep": _fv(f[5]), "tag": _fv(f[6])}
             if len(f) >= 9:
@@ -102,6 +114,9 @@ def pretty_op(op):
             return d
         if f[0] in ("dc", "d2"):
             return {"deleteThroughChildStore" + ("C2" if f[0] == "d2" else "C"): _unhex(f[1])}
+        if f[0] in ("xa", "xb"):
+            return {("deleteA" if f[0] == "xa" else "deleteB"): _unhex(f[1]),
+                    "while_an_entity_constraint_refuses_the_delete_of_A_entity": _unhex(f[2])}
         if f[0] == "da":
             return {"deleteA": _unhex(f[1])}
         if f[0] == "db":
@@ -111,13 +126,23 @@ def pretty_op(op):
     return {"op": op}
 
 
+def _verbose(case):
+    """h -> v, k -> w (k / w: the history runs on ONE reused MutateContext)"""
+    return {"h": "v", "k": "w"}.get(case[:1], case[:1]) + case[1:]
+
+
 def pretty_case(case):
     f = case.split(" ")
     v = int(f[1]) if len(f) > 1 and f[1].isdigit() else -1
     return {"schema": {"dep_cascade": bool(v & 1), "dep_nullable": bool(v & 2), "dep_registered_first": bool(v & 4),
                        "C_declares_mentor_fk_index": bool(v & 8), "C2_declares_mentor_fk_index": bool(v & 16),
                        "C_declares_guard_fk_constraint": bool(v & 32), "C2_declares_guard_fk_constraint": bool(v & 64),
-                       "C2_registered_before_C": bool(v & 128)},
+                       "C2_registered_before_C": bool(v & 128),
+                       "fk_field_naming": ["symbol = key = caller name", "key = caller name = fId (AddFkSymbolWithKey)",
+                                           "key = fId, caller name = f (WithFieldOverrides)",
+                                           "key = fId, caller name = fRef"][(v >> 8) & 3] if v >= 0 else None},
+            "mutate_context": "ONE MutateContext object reused for every Db.Update of the history" if f[0] in ("k", "w")
+                              else "a fresh MutateContext per transaction",
             "transactions": [[pretty_op(o) for o in tx.split(",")] for tx in f[2:] if tx]}
 
 
@@ -144,7 +169,7 @@ def results(line):
 
 def nontrivial(case, impl):
     res = results(impl)
-    interesting = any(r.endswith(("refexists", "notfound", "null-not-allowed")) for r in res)
+    interesting = any(r.endswith(("refexists", "notfound", "null-not-allowed", "veto")) for r in res)
     if not interesting:
         return None
     f = case.split(" ")
@@ -180,12 +205,29 @@ def situation_stats(case, impl, stats):
                     grew = True
         return gone
 
+    reused = f[0] in ("k", "w")
+    vetoed = None
     for tx, tok in zip([t for t in f[2:] if t], (impl or "").split(" ")):
         if not tok.startswith("ok#"):
+            r0 = tok.split("#")[0]
+            if r0.endswith(":veto"):
+                try:
+                    fo = tx.split(",")[int(r0.split(":")[0])].split(":")
+                except (ValueError, IndexError):
+                    fo = []
+                if fo and fo[0] in ("xa", "xb"):
+                    bump("cascade failed part-way at a protected referrer (rolled back), "
+                         + ("reused MutateContext" if reused else "fresh MutateContext per transaction"))
+                    vetoed = fo[1] if fo[0] == "xa" else None
             continue
         for op in tx.split(","):
             g = op.split(":")
             k = g[0]
+            if vetoed is not None and k in ("da", "dc", "d2", "xa") and vetoed in A and A[vetoed]["boss"] == g[1] \
+                    and g[1] != vetoed:
+                bump("a failed cascade at T followed by the delete of what T refers to, "
+                     + ("on the SAME MutateContext (seeded C04-11)" if reused else "on a fresh MutateContext"))
+                vetoed = None
             if k == "cb":
                 B.add(g[1])
             elif k == "ca":
@@ -212,8 +254,19 @@ def situation_stats(case, impl, stats):
                 cur = A.get(g[1])
                 if cur is None:
                     continue
-                m = int(g[2])
-                allf = m >= 8 if k == "ua" else bool(m & 8)
+                mp = [int(z) for z in g[2].split("/")] + [0, 0]
+                nv = (variant >> 8) & 3
+                m = mp[0] & (8 | 16)
+                for bit in (1, 2, 4, 32, 64):
+                    c_, k_, y_ = mp[0] & bit, mp[1] & bit, mp[2] & bit
+                    if c_ or (k_ and nv in (0, 1)) or (y_ and nv in (0, 2)):
+                        m |= bit
+                    if (k_ or y_) and not c_:
+                        bump("patch update listing an fk field by its stored key / symbol name only (naming %d): %s"
+                             % (nv, "selects it" if m & bit else "does not select it"))
+                if nv and mp[0] & (1 | 2 | 4 | 32 | 64) and not mp[0] & 8:
+                    bump("patch update of an fk field whose symbol name, stored key and caller-side name are not all the same")
+                allf = mp[0] >= 8 if k == "ua" else bool(mp[0] & 8)
                 if k != "ua":
                     ci = 1 if k == "u2" else 0
                     om, og = cur["x"].get(ci, ("", ""))
@@ -230,7 +283,7 @@ def situation_stats(case, impl, stats):
                     cur["boss"] = g[4]
                 if allf or m & 4:
                     cur["dep"] = _ev(g[5])
-            elif k in ("da", "dc", "d2"):
+            elif k in ("da", "dc", "d2", "xa"):
                 if g[1] in A:
                     gone = closure([g[1]])
                     if len(A[g[1]]["x"]) == 2:
@@ -341,7 +394,7 @@ def shrink(ctx, case, kind):
 
 
 def verbose_detail(ctx, case, a, m, s):
-    vcase = "v" + case[1:]
+    vcase = _verbose(case)
     r = _run(ctx, [vcase])
     d = describe(case, a, m, s)
     if r is not None:
@@ -402,7 +455,7 @@ def run(ctx, replay_cases=None):
 
     if replay_cases is not None:
         for c in lines:
-            r = _run(ctx, ["v" + c[1:]])
+            r = _run(ctx, [_verbose(c)])
             if r is not None:
                 print("case:  " + c)
                 print("impl:  " + r[0][0])
